@@ -250,6 +250,42 @@ def mut_self_lookup(events, rng):
     return ev
 
 
+def _phase_bucket(events, rng, k):
+    def ok(e):
+        return _built(e) and len(e.get("phases", [])) == 5 and any(n["tag"] == "B" and n["items"] for n in e["phases"][k]["nodes"])
+    i = _find(events, ok, rng)
+    if i is None:
+        return None
+    ev = copy.deepcopy(events)
+    n = rng.choice([n for n in ev[i]["phases"][k]["nodes"] if n["tag"] == "B" and n["items"]])
+    n["items"].pop()
+    return ev
+
+
+def mut_phase_delete(events, rng):
+    return _phase_bucket(events, rng, 1)
+
+
+def mut_phase_insert(events, rng):
+    return _phase_bucket(events, rng, 2)
+
+
+def mut_steps_order(events, rng):
+    i = _find(events, lambda e: _built(e) and len(e.get("steps", [])) >= 4, rng)
+    if i is None:
+        return None
+    ev = copy.deepcopy(events)
+    ev[i]["steps"][1], ev[i]["steps"][2] = ev[i]["steps"][2], ev[i]["steps"][1]
+    return ev
+
+
+# corruptions of CONFORMANCE data: they must show up as DRIFT lines
+DRIFT_MUTATORS = {
+    "phase_delete_items_altered": (mut_phase_delete, ["C01"]),
+    "phase_insert_altered": (mut_phase_insert, ["C01"]),
+    "progress_steps_swapped": (mut_steps_order, ["C10"]),
+}
+
 MUTATORS = {
     "drop_bucket_item": (mut_drop_bucket_item, ["C01"]),
     "flip_child_kind": (mut_flip_child_kind, ["C01"]),
@@ -332,6 +368,24 @@ def selftest(pid, clean_traces, seed, module="TraceMain.tla", count_as=None, als
             rejected.append(name)
         else:
             missed.append(name)
+    for name, (fn, props) in DRIFT_MUTATORS.items():
+        if pid not in props and count_as not in props:
+            continue
+        mutated = fn(flat, rng)
+        if mutated is None:
+            for h in everything:
+                if len(h) < 400 and fn(h, rng) is not None:
+                    mutated = fn(h, rng)
+                    break
+        if mutated is None:
+            continue
+        applicable.append(name)
+        path = f"{d}/{name}.ndjson"
+        with open(path, "w") as f:
+            for e in mutated:
+                f.write(json.dumps(e) + "\n")
+        _, drifts, _, _ = vk.run_trace(module, path)
+        (rejected if drifts else missed).append(name)
     shutil.rmtree(d, ignore_errors=True)
     return dict(applicable=applicable, rejected=rejected, missed=missed)
 
